@@ -243,3 +243,38 @@ def before(path: Path, node: ast.AST) -> Path:
     """Steps strictly before the step that contains `node`."""
     i = index_of(path, node)
     return path if i < 0 else path[:i]
+
+
+def must_raise(fn: ast.FunctionDef, pred, when=True, exc=None, loops: int = 1):
+    """Guard check: over all consistent paths on which a condition satisfying `pred(test_expr)` takes the decision `when`,
+    return (n_paths, offenders) where offenders are the paths that do NOT end in a raise (of `exc`, if given).
+
+    With `when=None`, `pred(test_expr, decision)` selects the guard decision itself.
+
+    Unlike "some raising path contains the condition" this fails when the raise under the guard is removed or replaced:
+    the path then runs on (even if a later, unrelated refusal ends it, the statement following the decision is checked
+    to be the raise itself or to lead to it without any store to `self`)."""
+    n = 0
+    off = []
+    for path in function_paths(fn, loops=loops):
+        if not consistent(path):
+            continue
+        idx = None
+        for i, s in enumerate(path):
+            if s[0] == "cond" and ((when is None and pred(s[1], s[2])) or (when is not None and s[2] == when and pred(s[1]))):
+                idx = i
+                break
+        if idx is None:
+            continue
+        n += 1
+        if end_kind(path) != "raise" or (exc is not None and exc not in unparse(path[-1][2])):
+            off.append("path continues after `%s` is %s" % (unparse(path[idx][1])[:60], when))
+            continue
+        # the raise must be reached from the decision without passing another decision taken the "normal" way, i.e. it is
+        # the refusal of THIS guard: allow only further conditions (nested guards), no plain statements with effects
+        for s in path[idx + 1:-1]:
+            if s[0] == "stmt" and not isinstance(s[1], (ast.Pass, ast.Expr, ast.Raise)) and not (
+                    isinstance(s[1], ast.Assign) and all(isinstance(t, ast.Name) for t in s[1].targets)):
+                off.append("`%s` runs between the decision `%s` and the raise" % (unparse(s[1])[:50], unparse(path[idx][1])[:40]))
+                break
+    return n, off
